@@ -126,6 +126,22 @@ func (f *Frame) call(v ssa.Value, c *ssa.CallCommon, in ssa.Instruction) {
 		res = f.callFunc(ci.fn, argVals(), ci.bindings, in, rt())
 		return
 	}
+	// a closure that calls itself through the variable it was assigned to ("var helper func(..);
+	// helper = func(..) { .. helper(..) .. }"): with flag selfrecursive the call is a recursive
+	// call under the closure's own contract
+	if con := f.u.Contract; con != nil && con.Flags["selfrecursive"] && f.depth == 0 {
+		if ld, ok := c.Value.(*ssa.UnOp); ok && ld.Op == token.MUL {
+			if _, isFV := ld.X.(*ssa.FreeVar); isFV && types.Identical(c.Signature(), f.fn.Signature) {
+				f.u.Trusted["the captured func variable through which "+con.Target+" calls itself holds that very closure"] = true
+				if f.callCount == nil {
+					f.callCount = map[string]int{}
+				}
+				f.callCount["self"]++
+				res = f.callByContract(f.fn, con, argVals(), f.freeVars, in, rt(), fmt.Sprintf("self[%d]", f.callCount["self"]))
+				return
+			}
+		}
+	}
 	f.nonNil(fv[0], "call", in.Pos())
 	f.u.note("dynamic call through func value havocs memory in " + f.fn.String())
 	f.havocAll("dynamic call")
@@ -1199,6 +1215,9 @@ func (f *Frame) invokeByContract(con *Contract, c *ssa.CallCommon, iv []*Term, a
 	vals = append(vals, resVals...)
 	limit := tb.BVU(32, uint64(freshBase+u.objCtr+1))
 	u.objCtr += 1 << 16
+	if f.callCount == nil {
+		f.callCount = map[string]int{}
+	}
 	f.callCount["invoke:"+con.Target]++
 	anchor := fmt.Sprintf("%s[%d]", con.Target, f.callCount["invoke:"+con.Target])
 	st := f.evalStub(con, vals, f.cur.mem, nil, limit, nil)
